@@ -91,7 +91,8 @@ HStNewHeight == 1
 VS == INSTANCE TMValSet WITH MaxTotal <- 1000000, IntMax <- 2000000000,
         Weak_ApplyBeforeVerify <- FALSE, Weak_IgnoreMissingRemoval <- FALSE, Weak_NoResort <- FALSE,
         Weak_NoPenalty <- FALSE, Weak_PenaltyMulOverflow <- FALSE, Weak_NoRescale <- FALSE,
-        Weak_NoCentre <- FALSE, Weak_TieHighAddr <- FALSE, Weak_FloorDiv <- FALSE
+        Weak_NoCentre <- FALSE, Weak_TieHighAddr <- FALSE, Weak_FloorDiv <- FALSE,
+        Weak_RoundSkipSingleIncrement <- FALSE   \* TMValSet's own switch (C08); this module has its own (HW("RoundSkipSingleIncrement"))
 
 N(V, P, PS) == INSTANCE TMConsensusNode WITH Vals <- V, PowerOf <- P, ProposerSeq <- PS
 
